@@ -429,7 +429,12 @@ def run_case(case):
                 break
     except Exception as e:  # noqa: BLE001
         import traceback
-        out["model"].append(f"case crashed: {e!r} :: {traceback.format_exc()[-1500:]}")
+        tb = traceback.format_exc()
+        out["model"].append(f"case crashed: {e!r} :: {tb[-1500:]}")
+        frames = [ln for ln in tb.splitlines() if ln.strip().startswith("File ")]
+        if frames and "/infretis/" in frames[-1] and "StopRun" not in repr(e):
+            # the program itself died in the middle of a run: the sampler stalled
+            out["C05"].append(f"the run died inside the program with {e!r} ({frames[-1].strip()[:160]})")
     finally:
         shutil.rmtree(wd, ignore_errors=True)
     return out
